@@ -253,6 +253,16 @@ class StmtMixin:
                 if not isinstance(base, VRef):
                     raise Unsupported("item assignment on immutable value")
                 vs = s.heap[base.ref]
+                if isinstance(vs, ObjState):
+                    c = self.reg.contracts.get(("<builtin>", f"{vs.cls}.__setitem__"))
+                    if c is None:
+                        m_, cls_ = self.class_of_record(vs.cls)
+                        c = self.reg.contracts.get((m_.name, f"{cls_}.__setitem__")) if m_ is not None else None
+                    if c is None:
+                        raise Unsupported(f"{vs.cls}.__setitem__ has no contract")
+                    for r_, s3 in self.apply_contract(c, None, [base, idx, val], {}, s):
+                        res.append((s3, r_ if isinstance(r_, Exc) else None))
+                    continue
                 i = self.to_mathint(self.as_int(self.deref(idx, s)))
                 n = vs.length()
                 j = z3.simplify(z3.If(i < 0, i + n, i))
@@ -394,9 +404,13 @@ class StmtMixin:
             return None, None
         sp = c.loops.get(ordinal)
         if sp is not None:
-            head = ast.unparse(node).split("\n")[0]
+            head = " ".join(ast.unparse(node).split("\n")[0].split())
             want = " ".join(sp.header.split())
-            if not " ".join(head.split()).startswith(want):
+            # the loop is identified by its kind and (for `for`) its targets; a changed condition or
+            # iterable is a semantic change and is checked against the invariant, not rejected here
+            def key(h):
+                return h.split(" in ")[0] if h.startswith("for ") else "while"
+            if key(head) != key(want):
                 raise Unsupported(f"loop {ordinal} header changed: expected {sp.header!r}, found {head!r}")
         return ordinal, sp
 
